@@ -42,13 +42,29 @@ AFSDB, RT, RP, KX, PX = 18, 21, 17, 36, 26
 SSHFP, TLSA, SMIMEA, CERT, DNSKEY, CDNSKEY, OPENPGPKEY = 44, 52, 53, 37, 48, 60, 61
 EUI48, EUI64, L32, L64, NID, HINFO, X25, DHCID, NSAP = 108, 109, 105, 106, 104, 13, 19, 49, 22
 NSEC3PARAM, URI, WKS, NAPTR = 51, 256, 11, 35
+KEY, DS, DLV, CDS, ZONEMD, CAA, CSYNC, NSEC3 = 25, 43, 32769, 59, 63, 257, 62, 50
 FIELD_TYPES_ANY = {
     SPF: "txt", NINFO: "txt", AVC: "txt", RESINFO: "txt", WALLET: "txt",
     AFSDB: [2, "U"], RT: [2, "U"], RP: ["U", "U"],
     SSHFP: [2, "R"], TLSA: [3, "R"], SMIMEA: [3, "R"], CERT: [5, "R"], DNSKEY: [4, "R"], CDNSKEY: [4, "R"],
     OPENPGPKEY: ["R"], EUI48: [6], EUI64: [8], L32: [2, 4], L64: [2, 8], NID: [2, 8],
     HINFO: ["C8", "C8"], X25: ["C8"], NSEC3PARAM: [4, "C8"], URI: [4, "R1"],
+    KEY: [4, "R"], DS: ["ds"], DLV: ["ds"], CDS: ["cds"], ZONEMD: ["zonemd"], CAA: ["caa"],
+    CSYNC: [6, "bitmap"], NSEC3: [4, "C8", "C8", "bitmap"],
 }
+
+
+def bitmap_windows(b):
+    out = []
+    i = 0
+    while i < len(b):
+        out.append((b[i], bytes(b[i + 2 : i + 2 + b[i + 1]])))
+        i += 2 + b[i + 1]
+    return out
+
+
+def bitmap_bytes(windows):
+    return b"".join(bytes([w, len(bm)]) + bytes(bm) for w, bm in windows)
 FIELD_TYPES_IN = {KX: [2, "U"], PX: [2, "U", "U"], DHCID: ["R"], NSAP: ["R"], WKS: [5, "R"],
                   NAPTR: [4, "C8", "C8", "C8", "N"]}
 
@@ -185,8 +201,19 @@ def mk_rdata(rdclass, rdtype, rd):
             return cls(rdclass, rdtype, pb(0)[0], pb(0)[1], pb(0)[2], pb(1))
         if rdtype == CERT:
             return cls(rdclass, rdtype, *struct.unpack("!HHB", pb(0)), pb(1))
-        if rdtype in (DNSKEY, CDNSKEY):
+        if rdtype in (DNSKEY, CDNSKEY, KEY):
             return cls(rdclass, rdtype, *struct.unpack("!HBB", pb(0)), pb(1))
+        if rdtype in (DS, DLV, CDS):
+            return cls(rdclass, rdtype, *struct.unpack("!HBB", pb(0)[:4]), pb(0)[4:])
+        if rdtype == ZONEMD:
+            return cls(rdclass, rdtype, *struct.unpack("!IBB", pb(0)[:6]), pb(0)[6:])
+        if rdtype == CAA:
+            b = pb(0)
+            return cls(rdclass, rdtype, b[0], b[2 : 2 + b[1]], b[2 + b[1] :])
+        if rdtype == CSYNC:
+            return cls(rdclass, rdtype, *struct.unpack("!IH", pb(0)), bitmap_windows(pb(1)))
+        if rdtype == NSEC3:
+            return cls(rdclass, rdtype, *struct.unpack("!BBH", pb(0)), pb(1)[1:], pb(2)[1:], bitmap_windows(pb(3)))
         if rdtype in (OPENPGPKEY, DHCID, NSAP, EUI48, EUI64):
             return cls(rdclass, rdtype, pb(0))
         if rdtype == L32:
@@ -322,8 +349,19 @@ def rdata_pieces(rd):
             return [bytes([rd.usage, rd.selector, rd.mtype]), bytes(rd.cert)]
         if t == CERT:
             return [struct.pack("!HHB", rd.certificate_type, rd.key_tag, rd.algorithm), bytes(rd.certificate)]
-        if t in (DNSKEY, CDNSKEY):
+        if t in (DNSKEY, CDNSKEY, KEY):
             return [struct.pack("!HBB", int(rd.flags), rd.protocol, int(rd.algorithm)), bytes(rd.key)]
+        if t in (DS, DLV, CDS):
+            return [struct.pack("!HBB", rd.key_tag, int(rd.algorithm), int(rd.digest_type)) + bytes(rd.digest)]
+        if t == ZONEMD:
+            return [struct.pack("!IBB", rd.serial, int(rd.scheme), int(rd.hash_algorithm)) + bytes(rd.digest)]
+        if t == CAA:
+            return [bytes([rd.flags, len(rd.tag)]) + bytes(rd.tag) + bytes(rd.value)]
+        if t == CSYNC:
+            return [struct.pack("!IH", rd.serial, rd.flags), bitmap_bytes(rd.windows)]
+        if t == NSEC3:
+            return [struct.pack("!BBH", rd.algorithm, rd.flags, rd.iterations), bytes([len(rd.salt)]) + rd.salt,
+                    bytes([len(rd.next)]) + rd.next, bitmap_bytes(rd.windows)]
         if t == OPENPGPKEY:
             return [bytes(rd.key)]
         if t == DHCID:
@@ -770,6 +808,20 @@ def gen_rdata(rng, pool, rdclass, rdtype):
                 out.append([0, nm()])
             elif f == "R1":
                 out.append(bytes(rng.randrange(256) for _ in range(rng.choice([1, 2, 20, 70]))))
+            elif f in ("ds", "cds"):
+                dt = rng.choice([1, 2, 3, 4, 5, 200] + ([0] if f == "cds" else []))
+                n = {0: 1, 1: 20, 2: 32, 3: 32, 4: 48}.get(dt, rng.choice([0, 7, 32]))
+                out.append(struct.pack("!HBB", rng.randrange(65536), rng.randrange(256), dt) + bytes(rng.randrange(256) for _ in range(n)))
+            elif f == "zonemd":
+                ha = rng.choice([1, 2, 3, 240])
+                n = {1: 48, 2: 64}.get(ha, rng.choice([0, 12, 40]))
+                out.append(struct.pack("!IBB", rng.randrange(2**32), rng.choice([1, 2, 255]), ha) + bytes(rng.randrange(256) for _ in range(n)))
+            elif f == "caa":
+                tag = bytes(rng.choice(b"abcXYZ019issuewild") for _ in range(rng.choice([1, 5, 12])))
+                out.append(bytes([rng.choice([0, 128, 255]), len(tag)]) + tag + bytes(rng.randrange(256) for _ in range(rng.choice([0, 3, 30]))))
+            elif f == "bitmap":
+                ws = sorted(rng.sample(range(256), rng.choice([0, 1, 2, 4])))
+                out.append(bitmap_bytes([(w, bytes(rng.randrange(256) for _ in range(rng.choice([1, 2, 32])))) for w in ws]))
             elif f == "R":
                 out.append(bytes(rng.randrange(256) for _ in range(rng.choice([0, 1, 4, 20, 33, 70]))))
             elif f == "C8":
